@@ -23,10 +23,10 @@ Dicts(K, E, n) == UNION {UNION {LET ks == SortKeys(KS) IN
                                   {[t |-> "d", v |-> [i \in 1..Len(ks) |-> <<ks[i], f[i]>>]] : f \in [1..Len(ks) -> E]}
                                 : KS \in kSubset(k, K)} : k \in 0..n}
 Keys1 == Strs(1)
-D1 == Atoms \cup Lists(Atoms, MaxItems) \cup Dicts(Keys1, Atoms, MaxItems)
-D1small == Atoms \cup Lists(Atoms, 1) \cup Dicts(Keys1, Atoms, 1)
-D2 == D1 \cup Lists(D1small, MaxItems) \cup Dicts(Keys1, D1small, MaxItems)
-Universe == IF Depth = 1 THEN D1 ELSE D2
+D1(z) == Atoms \cup Lists(Atoms, MaxItems) \cup Dicts(Keys1, Atoms, MaxItems)   \* (parameter: keeps TLC from evaluating it eagerly)
+D1small(z) == Atoms \cup Lists(Atoms, 1) \cup Dicts(Keys1, Atoms, 1)
+D2(z) == D1(z) \cup Lists(D1small(z), MaxItems) \cup Dicts(Keys1, D1small(z), MaxItems)
+Universe == IF Mode = "keys" THEN {} ELSE IF Depth = 1 THEN D1(0) ELSE D2(0)
 
 \* text that may follow an encoded value (the key continues after the flattened keywords)
 Tails == {<<>>, <<49>>, <<cS>>, <<49, cS, 49>>, <<NUL, 49, cI>>, <<cMinus, 49, cI>>, <<48, cD>>}
@@ -42,7 +42,7 @@ DictOrder == (st.mode = "v" /\ st.x.t = "d" /\ Len(st.x.v) = 2) =>
 KAlpha == Alpha
 KStr == Seqs(KAlpha, 2)
 KKwds == {[t |-> "d", v |-> <<>>]} \cup Dicts(Keys1, Strs(1), 1)
-KeyInputs == [pre : KStr, kw : KKwds, src : Seqs(KStr, 2)]
+KeyInputs == IF Mode = "keys" THEN [pre : KStr, kw : KKwds, src : Seqs(KStr, 2)] ELSE {}
 Ver == <<51, 46, 49>>                   \* "3.1"
 KeyRoundTrip == st.mode = "k" =>
     LET u == UnKey(Key(Ver, Ver, st.x.pre, st.x.kw, st.x.src)) IN
